@@ -10,23 +10,40 @@ import (
 	"golang.org/x/tools/go/ssa"
 )
 
-func decMapHas(tt *TermTable, s *Term) *Term {
-	if s.op == "uf:jenc_map" {
-		return s.args[0]
+// liftIte applies f to the leaves of an if-then-else tree.
+func liftIte(tt *TermTable, s *Term, f func(*Term) *Term) *Term {
+	if s.op == "ite" {
+		return tt.Ite(s.args[0], liftIte(tt, s.args[1], f), liftIte(tt, s.args[2], f))
 	}
-	return tt.UF("jdec_map_has", SArrSB, s)
+	return f(s)
+}
+
+func decMapHas(tt *TermTable, s *Term) *Term {
+	return liftIte(tt, s, func(s *Term) *Term {
+		if s.op == "uf:jenc_map" {
+			return s.args[0]
+		}
+		return tt.UF("jdec_map_has", SArrSB, s)
+	})
 }
 func decMapVal(tt *TermTable, s *Term) *Term {
-	if s.op == "uf:jenc_map" {
-		return s.args[1]
-	}
-	return tt.UF("jdec_map_val", SArrSS, s)
+	return liftIte(tt, s, func(s *Term) *Term {
+		if s.op == "uf:jenc_map" {
+			return s.args[1]
+		}
+		return tt.UF("jdec_map_val", SArrSS, s)
+	})
 }
+
+// validMap: s is the JSON encoding of a string map. Strings registered as
+// valid by construction (structured havoc) simplify to true.
 func validMap(tt *TermTable, s *Term) *Term {
-	if s.op == "uf:jenc_map" {
-		return tt.Bool(true)
-	}
-	return tt.UF("jvalid_map", SBool, s)
+	return liftIte(tt, s, func(s *Term) *Term {
+		if s.op == "uf:jenc_map" || tt.validStr[s.id] == "map" {
+			return tt.Bool(true)
+		}
+		return tt.UF("jvalid_map", SBool, s)
+	})
 }
 
 func (ex *Exec) encMap(m *MapObj) *Term {
@@ -169,12 +186,13 @@ func (ex *Exec) decStruct(t types.Type, s *Term) (*StructV, bool) {
 	key := typeKey(t)
 	sv := ex.zero(t).(*StructV)
 	for i, l := range leaves {
-		var d *Term
-		if s.op == "uf:jenc_"+key {
-			d = s.args[i]
-		} else {
-			d = tt.UF(fmt.Sprintf("jdec_%s_%d", key, i), l.sort, s)
-		}
+		i, l := i, l
+		d := liftIte(tt, s, func(s *Term) *Term {
+			if s.op == "uf:jenc_"+key {
+				return s.args[i]
+			}
+			return tt.UF(fmt.Sprintf("jdec_%s_%d", key, i), l.sort, s)
+		})
 		switch l.kind {
 		case "bytesnil":
 			b := structAt(sv, l.path).(*BytesV)
@@ -310,16 +328,25 @@ func (ex *Exec) jsonUnmarshal(data *BytesV, dst *IfaceV) Value {
 		st := u.Elem()
 		if _, isStruct := st.Underlying().(*types.Struct); isStruct {
 			key := typeKey(st)
-			isEnc := s.op == "uf:jenc_"+key
-			if !isEnc {
-				if !ex.branch(tt.UF("jvalid_"+key, SBool, s), "json-valid-"+key) {
-					ex.store(p, &PtrV{typ: et})
-					return ex.opaqueErr("json: cannot unmarshal into " + key)
+			valid := liftIte(tt, s, func(s *Term) *Term {
+				if s.op == "uf:jenc_"+key {
+					return tt.Bool(true)
 				}
-				if ex.branch(tt.UF("jnull_"+key, SBool, s), "json-null-"+key) {
-					ex.store(p, &PtrV{typ: et})
-					return nilErr()
+				return tt.UF("jvalid_"+key, SBool, s)
+			})
+			isNull := liftIte(tt, s, func(s *Term) *Term {
+				if s.op == "uf:jenc_"+key {
+					return tt.Bool(false)
 				}
+				return tt.UF("jnull_"+key, SBool, s)
+			})
+			if !ex.branch(valid, "json-valid-"+key) {
+				ex.store(p, &PtrV{typ: et})
+				return ex.opaqueErr("json: cannot unmarshal into " + key)
+			}
+			if ex.branch(isNull, "json-null-"+key) {
+				ex.store(p, &PtrV{typ: et})
+				return nilErr()
 			}
 			sv, ok := ex.decStruct(st, s)
 			if ok {
